@@ -330,10 +330,24 @@ const (
 	c09ThetaHotRatio    = 0.90
 	c09ThetaHotResident = 0.90
 	c09EpsZipf          = 0.08
+	// policy tier (a previous life before the hot-set workload): worst values over 2400
+	// generated cases on the unchanged tree 0.815 / 0.940; with the seeded climber regression
+	// 113 of 2400 cases fall to 0.11..0.45 / 0.33..0.74
+	c09PolicyThetaRatio    = 0.70
+	c09PolicyThetaResident = 0.75
 )
 
 // VERIF_C09_CALIBRATE=1: never fail, only record the worst values (used to set the thresholds)
 var c09Calibrate = os.Getenv("VERIF_C09_CALIBRATE") != ""
+
+func c09CalibLog(format string, args ...any) {
+	f, err := os.OpenFile(os.Getenv("VERIF_C09_CALIBRATE"), os.O_APPEND|os.O_CREATE|os.O_WRONLY, 0o644)
+	if err != nil {
+		return
+	}
+	fmt.Fprintf(f, format, args...)
+	f.Close()
+}
 
 func execC09(c c09Case, x *verifkit.Ctx) *verifkit.Failure {
 	res, f := runC09(c)
@@ -353,7 +367,7 @@ func execC09(c c09Case, x *verifkit.Ctx) *verifkit.Failure {
 		}
 		if c09Calibrate {
 			if res.hotRatio < 0.97 || res.hotResident < 0.97 {
-				fmt.Printf("CALIB store %+v ratio=%.3f resident=%.3f\n", c, res.hotRatio, res.hotResident)
+				c09CalibLog("CALIB store %+v ratio=%.3f resident=%.3f\n", c, res.hotRatio, res.hotResident)
 			}
 			return nil
 		}
@@ -370,7 +384,7 @@ func execC09(c c09Case, x *verifkit.Ctx) *verifkit.Failure {
 		verifkit.Extra("min_zipf_minus_lru_x1000", c09Min("zl", int64((res.zipfRatio-res.lruRatio)*1000)))
 		if c09Calibrate {
 			if res.zipfRatio < res.lruRatio-0.03 {
-				fmt.Printf("CALIB zipf %+v tlfu=%.3f lru=%.3f\n", c, res.zipfRatio, res.lruRatio)
+				c09CalibLog("CALIB zipf %+v tlfu=%.3f lru=%.3f\n", c, res.zipfRatio, res.lruRatio)
 			}
 			return nil
 		}
@@ -542,11 +556,11 @@ func execC09p(c c09pCase, x *verifkit.Ctx) *verifkit.Failure {
 		x.ClassIf(windowBefore != NewTinyLfu[int, int](uint(c.MaxSize), s.p.hasher).window.capacity, "window-moved-by-previous-life")
 		if c09Calibrate {
 			if ratio < 0.97 || res < 0.97 {
-				fmt.Printf("CALIB policy %+v ratio=%.3f resident=%.3f window=%d\n", c, ratio, res, s.p.window.capacity)
+				c09CalibLog("CALIB policy %+v ratio=%.3f resident=%.3f window=%d\n", c, ratio, res, s.p.window.capacity)
 			}
 			return nil
 		}
-		if ratio < c09ThetaHotRatio || res < c09ThetaHotResident {
+		if ratio < c09PolicyThetaRatio || res < c09PolicyThetaResident {
 			return verifkit.Failf("admission/policy/hot-set-not-retained", "bare policy, MaxSize %d, previous life %s (%d ops, window capacity %d afterwards): hot set of %d keys with %d one-off inserts per read: hit ratio over the last quarter of %d passes %.3f, %.1f%% of the hot keys resident (window capacity now %d, climber step %.4f)", c.MaxSize, c.Phase1, c.P1Ops, windowBefore, hot, c.Flood, c.Rounds, ratio, 100*res, s.p.window.capacity, s.p.step)
 		}
 		if c.Phase1 != "none" && c.Flood >= 3 {
@@ -559,7 +573,7 @@ func execC09p(c c09pCase, x *verifkit.Ctx) *verifkit.Failure {
 func TestVerifC09Policy(t *testing.T) {
 	verifkit.Run(t, verifkit.Spec[c09pCase]{
 		ID: "C09", Gen: genC09p, Exec: execC09p,
-		Rule:        "C09 (policy tier): rapid draws MaxSize {300,500,1000,2000}, a previous life of the cache (none / recency-friendly with a re-read lag of 10..80% of MaxSize / Zipf / cyclic scan, 20 000 .. 4 000 000 operations, i.e. up to hundreds of hill-climber periods) and then the hot-set workload (hot set 5..50% of MaxSize, 1..10 one-off inserts per hot read, 400 passes); driven directly and deterministically against TinyLfu; hit ratio over the last quarter >= 0.90 and >= 90% of the hot keys resident; non-trivial = a previous life and at least 3 one-off inserts per read",
+		Rule:        "C09 (policy tier): rapid draws MaxSize {300,500,1000,2000}, a previous life of the cache (none / recency-friendly with a re-read lag of 10..80% of MaxSize / Zipf / cyclic scan, 20 000 .. 4 000 000 operations, i.e. up to hundreds of hill-climber periods) and then the hot-set workload (hot set 5..50% of MaxSize, 1..10 one-off inserts per hot read, 400 passes); driven directly and deterministically against TinyLfu; hit ratio over the last quarter >= 0.70 and >= 75% of the hot keys resident (calibrated: unchanged tree worst 0.815 / 0.94, seeded climber regression 0.11..0.45); non-trivial = a previous life and at least 3 one-off inserts per read",
 		Assumptions: []string{"the bare policy is driven as the store drives it (sketch.Add + Set for a new key, Access for a hit), with every hit delivered (no lossy buffer)"},
 	})
 }
